@@ -285,9 +285,9 @@ func (r *Replica) Start() error {
 // Stop gracefully stops the replication process
 func (r *Replica) Stop() error {
 	r.mu.Lock()
-	defer r.mu.Unlock()
 
 	if r.shutdown {
+		r.mu.Unlock()
 		return nil // Already shut down
 	}
 
@@ -295,8 +295,13 @@ func (r *Replica) Stop() error {
 	r.shutdown = true
 	r.cancel()
 
-	// Wait for all goroutines to finish
+	// Wait for all goroutines to finish. The replication loop takes r.mu
+	// itself (while connecting and when it records the applied sequence), so
+	// the lock must not be held while waiting for it.
+	r.mu.Unlock()
 	r.wg.Wait()
+	r.mu.Lock()
+	defer r.mu.Unlock()
 
 	// Close connection and reset clients
 	if r.conn != nil {
